@@ -246,7 +246,7 @@ def point_body(case, rec):
         return
     g = get_geo(case['spec']['curve'])
     tt, tx = intervals(e)
-    if info['inside'] and 0 < info['end_dist'] < 1e-5:
+    if info['inside'] and 0 < info['end_dist'] <= 1e-5 * (1 + 1e-9):
         rec.exclude('interior_point_within_1e-5_of_end')
         return
     SL = operator(live, False)
